@@ -32,6 +32,14 @@ theorem front_macros_match : Gen.AssertShapes.front = expectedFront := rfl
 /-- the C entry points: parameter types, callee, operand expressions -/
 theorem c_entries_match : Gen.AssertShapes.cEntries = expectedCEntries := rfl
 theorem c_front_match : Gen.AssertShapes.cFront = expectedCFront := rfl
+theorem check_throws_macro_match : Gen.AssertShapes.flow_CHECK_THROWS = expectedCheckThrows := rfl
+theorem test_exit_macro_match : Gen.AssertShapes.flow_TEST_EXIT = expectedTestExit := rfl
+/-- the set of check macros the two headers define (a new macro is a new obligation) -/
+theorem all_macros_match : Gen.AssertShapes.allMacros = expectedAllMacros := rfl
+theorem all_c_macros_match : Gen.AssertShapes.allCMacros = expectedAllCMacros := rfl
+/-- `PlatformSpecificIsNan/IsInf/Fabs` are `isnan(d)`, `isinf(d)`, `fabs` of the double itself: the model's class
+    split nan / inf / finite is the one `doubles_equal` sees -/
+theorem platform_predicates_match : Gen.AssertShapes.platformPredicates = expectedPlatformPredicates := rfl
 /-- the literal of `BYTES_EQUAL` is `0xff` -/
 theorem bytes_mask_is_ff : Gen.AssertShapes.bytesMask = 255 := rfl
 
@@ -592,7 +600,155 @@ theorem assertDoublesEqual_fails_iff (o : FinOps F) (e a t : D F) :
 
 end Doubles
 
-/-! ## 9. non-vacuity: concrete operands on both sides of each rule -/
+/-! ## 9. remaining macros: CHECK_EQUAL_ZERO, CHECK_THROWS -/
+
+theorem CHECK_EQUAL_ZERO_fails_iff (a : CInt) (ha : InRange a.ty a.val) :
+    (CHECK_EQUAL_ZERO a).fails = true ↔ a.val ≠ 0 := by
+  have h0 : InRange tyInt 0 := by decide
+  unfold CHECK_EQUAL_ZERO
+  by_cases hn : 0 ≤ a.val
+  · rw [CHECK_EQUAL_int_fails_iff_math _ _ h0 ha (Or.inr ⟨by decide, hn⟩)]
+    constructor <;> intro h <;> exact fun e => h e.symm
+  · -- a negative operand has a signed type, and `int` is signed
+    have hs : (promote a.ty).signed = true := by
+      obtain ⟨⟨w, sg⟩, v⟩ := a
+      cases sg
+      · simp [InRange] at ha hn; omega
+      · unfold promote; split <;> simp [tyInt]
+    rw [CHECK_EQUAL_int_fails_iff_math _ _ h0 ha (Or.inl (by rw [hs]; decide))]
+    constructor <;> intro h <;> exact fun e => h e.symm
+
+theorem CHECK_EQUAL_ZERO_counts_one (a : CInt) : (CHECK_EQUAL_ZERO a).counted = 1 := CHECK_EQUAL_counts_one _
+
+/-- `CHECK_THROWS` fails iff the expression did not throw the expected exception, and counts one
+    check either way (through `fail` or through `countCheck`) -/
+theorem CHECK_THROWS_fails_iff (t : Thrown) : (CHECK_THROWS t).fails = true ↔ t ≠ .expected := by
+  cases t <;> simp [CHECK_THROWS, fail, countOnly, countThenFailIf]
+
+theorem CHECK_THROWS_counts_one (t : Thrown) : (CHECK_THROWS t).counted = 1 := by
+  cases t <;> rfl
+
+/-! ## 10. a failing check ends the test body: one failure per failing check -/
+
+def Stmt.stops : Stmt → Bool
+  | .check o => o.fails
+  | .exit => true
+
+def Stmt.counted : Stmt → Nat
+  | .check o => o.counted
+  | .exit => 0
+
+/-- at most one failure is recorded by a test body, however many failing checks it contains -/
+theorem body_at_most_one_failure : ∀ b : List Stmt, (runBody b).failures ≤ 1
+  | [] => by simp [runBody]
+  | .exit :: _ => by simp [runBody]
+  | .check o :: rest => by
+    unfold runBody; split
+    · simp
+    · simpa [BodyResult.after] using body_at_most_one_failure rest
+
+/-- nothing after the first failing check (or TEST_EXIT) is executed: the body behaves as its
+    prefix up to and including that statement -/
+theorem body_stops_at_first_failure (pre : List Stmt) (s : Stmt) (post : List Stmt)
+    (hpre : ∀ x ∈ pre, x.stops = false) (hs : s.stops = true) :
+    runBody (pre ++ s :: post) = runBody (pre ++ [s]) := by
+  induction pre with
+  | nil =>
+    cases s with
+    | exit => simp [runBody]
+    | check o => simp [Stmt.stops] at hs; simp [runBody, hs]
+  | cons x xs ih =>
+    have hx := hpre x (by simp)
+    have ih' := ih (fun y hy => hpre y (by simp [hy]))
+    cases x with
+    | exit => simp [Stmt.stops] at hx
+    | check o =>
+      simp [Stmt.stops] at hx
+      simp [runBody, hx, ih']
+
+/-- a body of passing checks only: no failure, every statement executed, the checks add up -/
+theorem body_all_pass (b : List Stmt) (h : ∀ x ∈ b, x.stops = false) :
+    (runBody b).failures = 0 ∧ (runBody b).executed = b.length ∧
+    (runBody b).checks = (b.map Stmt.counted).sum := by
+  induction b with
+  | nil => simp [runBody]
+  | cons x xs ih =>
+    have hx := h x (by simp)
+    have ih' := ih (fun y hy => h y (by simp [hy]))
+    cases x with
+    | exit => simp [Stmt.stops] at hx
+    | check o =>
+      simp [Stmt.stops] at hx
+      simp [runBody, hx, BodyResult.after, ih', Stmt.counted]
+
+/-- a failure is recorded iff some executed statement is a failing check; precisely: a passing
+    prefix followed by a failing check records exactly one failure, started `pre.length + 1`
+    statements and counted the prefix's checks plus the failing one -/
+theorem body_first_failure (pre : List Stmt) (o : Outcome) (post : List Stmt)
+    (hpre : ∀ x ∈ pre, x.stops = false) (ho : o.fails = true) :
+    (runBody (pre ++ .check o :: post)).failures = 1 ∧
+    (runBody (pre ++ .check o :: post)).executed = pre.length + 1 ∧
+    (runBody (pre ++ .check o :: post)).checks = (pre.map Stmt.counted).sum + o.counted := by
+  induction pre with
+  | nil => simp [runBody, ho]
+  | cons x xs ih =>
+    have hx := hpre x (by simp)
+    have ih' := ih (fun y hy => hpre y (by simp [hy]))
+    cases x with
+    | exit => simp [Stmt.stops] at hx
+    | check p =>
+      simp [Stmt.stops] at hx
+      simp [runBody, hx, BodyResult.after, ih', Stmt.counted]
+      omega
+
+/-- `TEST_EXIT` after a passing prefix: no failure, nothing after it runs -/
+theorem body_exit (pre : List Stmt) (post : List Stmt) (hpre : ∀ x ∈ pre, x.stops = false) :
+    (runBody (pre ++ .exit :: post)).failures = 0 ∧
+    (runBody (pre ++ .exit :: post)).executed = pre.length + 1 := by
+  induction pre with
+  | nil => simp [runBody]
+  | cons x xs ih =>
+    have hx := hpre x (by simp)
+    have ih' := ih (fun y hy => hpre y (by simp [hy]))
+    cases x with
+    | exit => simp [Stmt.stops] at hx
+    | check p =>
+      simp [Stmt.stops] at hx
+      simp [runBody, hx, BodyResult.after, ih']
+
+/-! ## 11. operands with side effects: what the macros do (observation about the code, stated and proved
+    on the model; upstream documents that a failing CHECK_EQUAL re-evaluates its operands) -/
+
+/-- the verdict and the count of `CHECK_EQUAL` depend on the FIRST evaluation of each operand only -/
+theorem checkEqualRun_outcome (t : CTy) (e a : Nat → Int) :
+    (checkEqualRun t e a).1 = CHECK_EQUAL_int ⟨t, e 0⟩ ⟨t, a 0⟩ := by
+  unfold checkEqualRun CHECK_EQUAL_int CHECK_EQUAL
+  split <;> rfl
+
+/-- a passing `CHECK_EQUAL` evaluates each operand once; a failing one four times (comparison,
+    the two self-comparisons that detect side effects, `StringFrom` for the message) -/
+theorem checkEqualRun_evaluations (t : CTy) (e a : Nat → Int) :
+    ((checkEqualRun t e a).1.fails = false → (checkEqualRun t e a).2.expected = 1 ∧ (checkEqualRun t e a).2.actual = 1) ∧
+    ((checkEqualRun t e a).1.fails = true → (checkEqualRun t e a).2.expected = 4 ∧ (checkEqualRun t e a).2.actual = 4) := by
+  unfold checkEqualRun
+  split <;> simp [assertEquals, assertLongsEqual, countThenFailIf]
+
+/-- pure operands (the same value at every evaluation) never produce the "evaluated multiple times" warning -/
+theorem checkEqualRun_pure_no_warning (t : CTy) (x y : Int) :
+    (checkEqualRun t (fun _ => x) (fun _ => y)).2.warnings = 0 := by
+  have hself : ∀ v : Int, cppNe ⟨t, v⟩ ⟨t, v⟩ = false := by intro v; simp [cppNe]
+  unfold checkEqualRun
+  split <;> simp [hself, warnIf]
+
+/-- a passing `CHECK_COMPARE` evaluates each operand once, a failing one twice; verdict from the first evaluation -/
+theorem checkCompareRun_evaluations (op : RelOp) (t : CTy) (e a : Nat → Int) :
+    (checkCompareRun op t e a).1 = CHECK_COMPARE_int op ⟨t, e 0⟩ ⟨t, a 0⟩ ∧
+    ((checkCompareRun op t e a).1.fails = false → (checkCompareRun op t e a).2.expected = 1 ∧ (checkCompareRun op t e a).2.actual = 1) ∧
+    ((checkCompareRun op t e a).1.fails = true → (checkCompareRun op t e a).2.expected = 2 ∧ (checkCompareRun op t e a).2.actual = 2) := by
+  unfold checkCompareRun CHECK_COMPARE_int CHECK_COMPARE
+  cases h : cppRel op ⟨t, e 0⟩ ⟨t, a 0⟩ <;> simp [assertCompare, countThenFailIf, nothing]
+
+/-! ## 12. non-vacuity: concrete operands on both sides of each rule -/
 
 example : (LONGS_EQUAL (-1) (2 ^ 64 - 1)).fails = false := by decide      -- equal modulo 2^64 only
 example : (LONGS_EQUAL (-1) (2 ^ 63 - 1)).fails = true := by decide
@@ -632,5 +788,14 @@ example : doublesEqual intOps (.inf false) (.inf true) (.fin 1) = false := by de
 example : doublesEqual intOps (.inf false) (.fin 5) (.inf false) = true := by decide
 example : doublesEqual intOps (.inf false) (.inf true) (.inf false) = true := by decide
 example : doublesEqual intOps (.inf true) (.inf true) (.fin (-1)) = true := by decide
+
+example : runBody [.check (LONGS_EQUAL 1 1), .check (CHECK_EQUAL_C_INT 1 2), .check (LONGS_EQUAL 1 2), .check FAIL] =
+    { failures := 1, checks := 2, executed := 2 } := by decide
+example : runBody [.check (CHECK_COMPARE_int .lt ⟨tyInt, 1⟩ ⟨tyInt, 2⟩), .exit, .check FAIL] =
+    { failures := 0, checks := 0, executed := 2 } := by decide
+example : (checkEqualRun tyInt (fun k => 5 + k) (fun _ => 6)).2 = { expected := 4, actual := 4, warnings := 1 } := by decide
+example : (checkEqualRun tyInt (fun k => 5 + k) (fun k => 5 + k)).2 = { expected := 1, actual := 1, warnings := 0 } := by decide
+example : (CHECK_THROWS .other).fails = true ∧ (CHECK_THROWS .expected).fails = false := by decide
+example : (CHECK_EQUAL_ZERO ⟨⟨64, false⟩, 0⟩).fails = false ∧ (CHECK_EQUAL_ZERO ⟨⟨8, true⟩, -1⟩).fails = true := by decide
 
 end Asserts
